@@ -144,10 +144,14 @@ func (c *Cfg) OpString(op wx.Op) string {
 		return fmt.Sprintf("%s(%s, n=%d)", n, c.setName(op.A), op.B)
 	case OpNewEntityDup:
 		return fmt.Sprintf("NewEntity(%s,%s)", c.compName(op.A), c.compName(op.A))
-	case OpRemoveEntity, OpAddNone:
+	case OpRelExchangeBad:
+		return fmt.Sprintf("Relations.Exchange(%s, add=%s, rem=none, relation=%s, target=%s)", slotName(op.A), c.compName(op.B), c.compName(op.B), slotName(op.D))
+	case OpRemoveEntity, OpAddNone, OpAssignNone:
 		return fmt.Sprintf("%s(%s)", n, slotName(op.A))
 	case OpAdd, OpRemove, OpRelGet:
 		return fmt.Sprintf("%s(%s, %s)", n, slotName(op.A), c.compName(op.B))
+	case OpBuilderNoRel:
+		return fmt.Sprintf("NewBuilder(%s).%s(target=%s) without WithRelation", c.setName(op.A), [...]string{"New", "NewBatch", "NewBatchQ", "Add"}[op.B], slotName(op.D))
 	case OpReadDead:
 		return fmt.Sprintf("%s(%s, %s)", [...]string{"Has", "Get"}[op.C], slotName(op.A), c.compName(op.B))
 	case OpAddTwo, OpRemoveTwo:
